@@ -211,6 +211,9 @@ Proof. destruct x as [|t []]; reflexivity. Qed.
 Definition past_cb (pc : wpc) : bool := match pc with PCbIn | PCbOut | PCb => false | _ => true end.
 Definition wrote (pc : wpc) : bool :=
   match pc with PRel _ false | PTUn false | PFin false => true | _ => false end.
+(* the tensor has not been evaluated yet by the worker at this point *)
+Definition pre_write (pc : wpc) : bool :=
+  match pc with PRel _ _ | PTUn _ | PFin _ => false | _ => true end.
 Definition app_if (b : bool) (l : list nat) (t : nat) : list nat := if b then l ++ [t] else l.
 
 Inductive wsum (c : cfg) (s : state) (w : nat) (s' : state) : Prop :=
@@ -218,6 +221,7 @@ Inductive wsum (c : cfg) (s : state) (w : nat) (s' : state) : Prop :=
     s_wk s w = WRun t pc -> wk_after (s_wk s) (s_wk s') w (WRun t pc') ->
     s_ts s' = s_ts s ->
     (past_cb pc = true -> past_cb pc' = true) -> (wrote pc = true -> wrote pc' = true) ->
+    (pre_write pc' = true -> pre_write pc = true) ->
     s_cblog s' = app_if (past_cb pc' && negb (past_cb pc)) (s_cblog s) t ->
     s_wlog s' = app_if (wrote pc' && negb (wrote pc)) (s_wlog s) t ->
     wsum c s w s'
@@ -326,7 +330,7 @@ Qed.
 Lemma coh_wstep c s w s' : w < nw c -> coh_inv c s -> wstep c s w = Some s' -> coh_inv c s'.
 Proof.
   intros Hw Hi H. apply wstep_sum in H.
-  destruct H as [t pc pc' Ew Ha Hts _ _ _ _ | t pc' Ew Ha Hq Hts Hlt Hp _ _ _ _ _ | t e Ew Ha Hts _ _].
+  destruct H as [t pc pc' Ew Ha Hts _ _ _ _ _ | t pc' Ew Ha Hq Hts Hlt Hp _ _ _ _ _ | t e Ew Ha Hts _ _].
   - apply (coh_same c s s'); [|exact Hts|exact Hi].
     intros w0. rewrite (cur_after _ _ _ _ w0 Ha). destruct (Nat.eqb w0 w) eqn:E; [|reflexivity].
     apply Nat.eqb_eq in E. subst. rewrite Ew. reflexivity.
